@@ -50,16 +50,41 @@ def _add_option_variants(rng, client):
         if st['fn'].startswith('caller.') or st.get('nodup'):
             continue
         slots = [('a', i) for i, a in enumerate(st['args']) if _is_literal(a)] + [('k', n_) for n_, a in st['kw'].items() if _is_literal(a)]
+        slots += [('d', n_, d_) for n_, d_ in _defaulted_options(st)]
         if slots:
             cand.append((k, slots))
     for k, slots in rng.sample(cand, min(len(cand), rng.choice([0, 1, 2]))):
         st = copy.deepcopy(client['steps'][k])
-        where, key = rng.choice(slots)
-        holder = st['args'] if where == 'a' else st['kw']
-        holder[key] = _vary(rng, holder[key])
+        slot = rng.choice(slots)
+        if slot[0] == 'd':
+            d_ = slot[2]
+            st['kw'][slot[1]] = _vary(rng, d_ if isinstance(d_, (bool, int)) else {'f': fhex(float(d_))})
+        else:
+            holder = st['args'] if slot[0] == 'a' else st['kw']
+            holder[slot[1]] = _vary(rng, holder[slot[1]])
         st['probe'] = True
         st['variant_of'] = k
         client['steps'].append(st)
+
+
+def _defaulted_options(st):
+    """(name, default) of numeric / boolean keyword options of the called function that the call leaves at their default."""
+    import inspect
+    try:
+        f = _pkg_attr(st['fn'])
+        f = getattr(f, 'py_func', getattr(f, '__wrapped__', f))
+        params = list(inspect.signature(f).parameters.values())
+    except Exception:
+        return []
+    out = []
+    for pos, p_ in enumerate(params):
+        if pos < len(st['args']) or p_.name in st['kw'] or p_.default is inspect.Parameter.empty:
+            continue
+        if isinstance(p_.default, bool) or (isinstance(p_.default, (int, float)) and not isinstance(p_.default, bool)):
+            if p_.name in ('plot', 'debug'):
+                continue          # these switch the return type, not an option of the computation
+            out.append((p_.name, p_.default))
+    return out
 
 
 def _is_literal(a):
@@ -224,6 +249,7 @@ class _Skip(Exception):
 
 
 _WORLD = 'ref'
+_CLOCK = None
 
 
 def _materialise(pool, world):
@@ -478,6 +504,8 @@ def _soak(args, findings, where, type_only):
     build = SOAK_TARGETS[target]
     limit = budget.limit_for(m)
     firsts = []
+    recent = []
+    mid_bad = False
     acc = []
     for i in range(int(count)):
         x = 0.0
@@ -490,9 +518,26 @@ def _soak(args, findings, where, type_only):
         e = _enc_outcome(_invoke(target, argv, {}, limit, findings, where, type_only))
         if i < 16:
             firsts.append((pts, e, i))
+        recent.append((pts, e, i))
+        if len(recent) > 24:
+            recent.pop(0)
+        if _CLOCK is not None and i % max(1, int(count) // 9) == 0 and i:
+            # time passes in the middle of the job, in steps below and above typical expiry times, so that bounded
+            # or time-limited state is partly expired when an input from a little earlier comes back
+            _CLOCK.jump(rr.choice([7.0, 70.0, 700.0, 1300.0, 1300.0, 4000.0, 40000.0]))
+        if i % 37 == 36:
+            pts0, e0, i0 = recent[0]
+            e2 = _enc_outcome(_invoke(target, list(build(pts0, random.Random(seed + i0))), {}, limit, findings, where, type_only))
+            if e2 != e0 and not mid_bad:
+                mid_bad = True
+                findings.append({'oracle': 'P2', 'key': 'P2dup:%s' % target, 'where': where, 'fn': target,
+                                 'detail': {'after': 'an input from %d calls earlier, re-issued in the middle of %d calls on distinct inputs' % (i - i0, count),
+                                            'first': _short(e0), 'again': _short(e2)}})
         if i % 97 == 0:
             acc.append(sha(e)[:8])
     bad = 0
+    if _CLOCK is not None:
+        _CLOCK.jump(90000.0)          # a day later: time-based expiry / purges run before the early inputs come back
     for pts, e, i0 in firsts:
         e2 = _enc_outcome(_invoke(target, list(build(pts, random.Random(seed + i0))), {}, limit, findings, where, type_only))
         if e2 != e:
@@ -744,7 +789,9 @@ def run_sim(plan, stats):
         # the simulated world is "the process that imported the package" (the isolated world runs in forked workers):
         # code that remembers its importing pid behaves accordingly
         _os.getpid = lambda: _core.IMPORT_PID
+    global _CLOCK
     clock = worlds.install_clock()
+    _CLOCK = clock
     if plan.get('debug_logging'):
         worlds.enable_debug_logging()
         bump('fault.debug_logging_enabled')
